@@ -103,6 +103,11 @@ func (cfg *Config) applyDefaultGlobals() {
 	for k, v := range DefaultGlobals(DefaultGlobalsOpts{
 		ListenersAllowed: cfg.listenersAllowed,
 	}) {
+		// A global that the host has given under the name of a default one
+		// is the host's
+		if _, given := cfg.globals[k]; given {
+			continue
+		}
 		cfg.globals[k] = v
 	}
 }
